@@ -625,6 +625,22 @@ func (ex *Exec) evalCall(st *State, c *ECall, env *Env, cl *Clause) Value {
 		k := Var("k!row", SInt)
 		st.assume(Forall([]*Term{k}, Eq(Select(view, k), Select(Select(h, sl.Ref), Idx(sl.Off, k)))))
 		return view
+	case "sameblock":
+		// sameblock(a, b): two slices are views of the same allocation (share memory)
+		a := ex.evalIn(st, c.Args[0], env, cl)
+		b := ex.evalIn(st, c.Args[1], env, cl)
+		if p, ok := a.(*VPtr); ok {
+			a = ex.specLoad(st, p)
+		}
+		if p, ok := b.(*VPtr); ok {
+			b = ex.specLoad(st, p)
+		}
+		sa, ok1 := a.(*VSlice)
+		sb, ok2 := b.(*VSlice)
+		if !ok1 || !ok2 {
+			ex.evalFail(cl, "sameblock of %T and %T", a, b)
+		}
+		return And(Eq(sa.Ref, sb.Ref), Not(Eq(sa.Ref, IntLit(0))))
 	case "fresh":
 		v := ex.evalIn(st, c.Args[0], env, cl)
 		return ex.freshPred(st, v, env, cl)
